@@ -57,6 +57,7 @@ def answerPca (fs : List (String × String)) : String :=
       let projTxt := if cP.isExact && cmu.isExact then "same" else "DIFFERENT"
       -- 5. PROPERTY: (P, lam) top-d eigensystem of the true covariance
       let ce := certify C.get P.get lam.get scale εrel true
+      let robTxt := if ce.ok then robustExtremal C.get P.get lam.get scale εrel else "skipped"
       -- 6. embedding = centred samples × P  (model `project` on the returned pair)
       let Ymodel := DMat.ofFn (embedRows P.get mu.get X.get)
       let ymax := maxAbsM Ymodel.get
@@ -72,7 +73,7 @@ def answerPca (fs : List (String × String)) : String :=
         else s!"ok:{showMag vdef}"
       let cs := [cmean, ccov, cpre, cP, cmu, cy]
       let nexact := (cs.filter Cmp.isExact).length
-      s!"mean={tag cmean} cov={tag ccov} pre={tag cpre} contract={contract.text} proj={projTxt} eig={ce.text} y={cy.show} var={varTxt} cmp=exact:{nexact},approx:{cs.length - nexact + 6}"
+      s!"mean={tag cmean} cov={tag ccov} pre={tag cpre} contract={contract.text} proj={projTxt} eig={ce.text} robust={robTxt} y={cy.show} var={varTxt} cmp=exact:{nexact},approx:{cs.length - nexact + 6}"
     | _, _, _, _, _, _, _, _, _ => "bad-observation"
   | _, _, _, _, _ => "bad-case"
 
